@@ -23,6 +23,7 @@ import (
 	"encoding/json"
 	"fmt"
 	"math/big"
+	"sort"
 
 	"github.com/polynetwork/poly/common"
 	"github.com/polynetwork/poly/native"
@@ -206,7 +207,13 @@ func (this *RippleHandler) MultiSign(service *native.NativeService) error {
 		if err != nil {
 			return fmt.Errorf("MultiSign, types.DeserializeRawMultiSignTx error")
 		}
+		// iterate in a fixed order: the event below must not depend on map iteration order
+		sigList := make([]string, 0, len(multisignInfo.SigMap))
 		for s := range multisignInfo.SigMap {
+			sigList = append(sigList, s)
+		}
+		sort.Strings(sigList)
+		for _, s := range sigList {
 			signerBytes, err := hex.DecodeString(s)
 			if err != nil {
 				return fmt.Errorf("MultiSign, hex.DecodeString signer bytes error")
